@@ -483,7 +483,7 @@ class Gen:
     def leftrec_cluster(self):
         """a left-recursive cluster appended to the grammar; returns entry rule + rules"""
         r = self.r
-        style = r.randint(0, 4)
+        style = r.randint(0, 5)
         ops = r.sample(["+", "-", "*", "x", "ab", "=>", ","], 3)
         d_pos = (lambda: ["position"] if self.coin(self.p["p_position"]) else [])
         atom_body = r.choice([
@@ -527,6 +527,11 @@ class Gen:
                        Lit(ops[0]), Opt(Cho([Seq([Ref("LAtom", "r")])]))])
             base = Seq([Ref("LAtom", "r")])
             rules.append(Rule("LRec", Cho([rec, base]), ["leftrec"] + d_pos()))
+            entry = "LRec"
+        elif style == 5:
+            # a left-recursive @string rule (the value is the slice of the longest growth), used through a struct rule
+            rules.append(Rule("LStr", Cho([Seq([Ref("LStr"), Lit(ops[0]), Ref("LAtom")]), Seq([Ref("LAtom")])]), ["leftrec", "string"] + d_pos()))
+            rules.append(Rule("LRec", Cho([Seq([Ref("LStr", "s"), Opt(Cho([Seq([Lit(ops[1]), Ref("LStr", "t")])]))])]), d_pos()))
             entry = "LRec"
         else:
             # growth that can stop because the body no longer matches (lookahead on the rule itself)
